@@ -7,7 +7,7 @@ MANIFEST = dict(
     category="proof",
     text="Contracts on the real opn2_setNumChips, opn2_switchEmulator, opn2_setDeviceIdentifier and opn2_setVolumeRangeModel (+ OPN2::setVolumeScaleModel) bodies (extracted on every run), for every argument value and a NULL or valid device: a failing call leaves every field of the setup, the device id, the synth's chip count untouched, triggers no chip rebuild and (for a valid device) leaves an error text; a succeeding call stores exactly the value given and is accepted exactly for the documented range; the volume model setter maps explicit models one-to-one and AUTO to the loaded bank's own model.",
     design_ref="DESIGN.md C18",
-    level_note="Scoped to these three setters (the ones that can fail). Not covered: the getter side of every pair, persistence across applySetup/partialReset/resetMIDI and file loads, the per-bank overrides, rejected bank/music files. Assumed: partialReset (counted), OPN2::setupLocked, opn2_isEmulatorAvailable (only ids inside the enum are available - the property of fix 46ab746), setErrorString (counted).",
+    level_note="Failure side: the setters that can fail. Success side: setter followed by its real getter for LFO enable/frequency, channel allocation mode, auto arpeggio, volume model, chip count, and the stored/in-force flags for modulator scaling, soft panning, full-range brightness. Not covered: chip type (goes through applySetup), persistence across applySetup/partialReset/resetMIDI and file loads, the per-bank overrides, rejected bank/music files. Assumed: partialReset (counted), OPN2::setupLocked, opn2_isEmulatorAvailable (only ids inside the enum are available - the property of fix 46ab746), setErrorString (counted).",
     technique="CBMC code contracts (DFCC) on mechanically extracted C API functions")
 TRUSTED = ["extraction rules of vlib/cxx2c.py", "harness/env_play.h", "assumed contracts: partialReset, OPN2::setupLocked, opn2_isEmulatorAvailable, setErrorString"]
 ASSUMPTIONS = []
@@ -20,6 +20,20 @@ SPECS = [
     dict(file="src/opnmidi_opn2.cpp", name="OPN2::setVolumeScaleModel", cls="OPN2", static=True, must=["R10"]),
     dict(file=F, name="opn2_setVolumeRangeModel", cls=None, must=["R2", "R3"], post=[(r"synth\.setupLocked\(\)", "OPN2_setupLocked(&synth)"), (r"synth\.setVolumeScaleModel\(", "setVolumeScaleModel(")]),
     dict(file=F, name="opn2_setDeviceIdentifier", cls=None, must=["R2"], post=[(r"play->setDeviceId\(", "setDeviceId(")]),
+]
+
+
+SY = [(r"synth\.setupLocked\(\)", "OPN2_setupLocked(&synth)")]
+def _simple(name, **kw):
+    d = dict(file=F, name=name, cls=None); d.update(kw); return d
+SPECS += [
+    dict(file="src/opnmidi_opn2.cpp", name="OPN2::getVolumeScaleModel", cls="OPN2", static=True, must=["R10"]),
+    _simple("opn2_getNumChips"), _simple("opn2_getVolumeRangeModel", post=[(r"play->m_synth->getVolumeScaleModel\(\)", "getVolumeScaleModel()")]),
+    _simple("opn2_setLfoEnabled", must=["R3"], post=[(r"synth\.commitLFOSetup\(\)", "commitLFOSetup()")]), _simple("opn2_getLfoEnabled"),
+    _simple("opn2_setLfoFrequency", must=["R3"], post=[(r"synth\.commitLFOSetup\(\)", "commitLFOSetup()")]), _simple("opn2_getLfoFrequency"),
+    _simple("opn2_setChannelAllocMode", must=["R3", "R2"]), _simple("opn2_getChannelAllocMode", must=["R2"]),
+    _simple("opn2_setAutoArpeggio"), _simple("opn2_getAutoArpeggio"),
+    _simple("opn2_setScaleModulators"), _simple("opn2_setSoftPanEnabled"), _simple("opn2_setFullRangeBrightness"),
 ]
 
 
@@ -42,4 +56,11 @@ def groups(tier):
     REPL = ["setErrorString", "partialReset", "OPN2_setupLocked", "opn2_isEmulatorAvailable"]
     return [Group("api_" + n, "harness/api_h.c", "h_" + n, enforce=n, replace=REPL, extract=_extract, object_bits=9,
                   required=[r"postcondition", r"assigns"], funcs=[n], timeout=600)
-            for n in ("opn2_setNumChips", "opn2_switchEmulator", "opn2_setDeviceIdentifier", "opn2_setVolumeRangeModel")]
+            for n in ("opn2_setNumChips", "opn2_switchEmulator", "opn2_setDeviceIdentifier", "opn2_setVolumeRangeModel")] + \
+           [Group("pair_" + n, "harness/api_h.c", "h_pair_" + n, replace=REPL + ["commitLFOSetup"], extract=_extract, object_bits=9, required=[r"PAIR"],
+                  funcs=fs, timeout=600, note="setter followed by its getter, both real bodies; lemma harness")
+            for n, fs in (("lfoEnabled", ["opn2_setLfoEnabled", "opn2_getLfoEnabled"]), ("lfoFrequency", ["opn2_setLfoFrequency", "opn2_getLfoFrequency"]),
+                          ("channelAlloc", ["opn2_setChannelAllocMode", "opn2_getChannelAllocMode"]), ("autoArpeggio", ["opn2_setAutoArpeggio", "opn2_getAutoArpeggio"]),
+                          ("flags", ["opn2_setScaleModulators", "opn2_setSoftPanEnabled", "opn2_setFullRangeBrightness"]),
+                          ("volumeModel", ["opn2_setVolumeRangeModel", "opn2_getVolumeRangeModel", "OPN2::getVolumeScaleModel"]),
+                          ("numChips", ["opn2_setNumChips", "opn2_getNumChips"]))]
